@@ -10,7 +10,7 @@ COQ = dict(imports=["Model.Plan", "Spec.C01"], in_ty="input01", out_ty="pres (li
            corr="corr_C01", decide="check_C01", inclass="inclass_C01", model="model_C01")
 SUITES = {"cmd": cs.SUITE, "cmdseq": cs.SUITE_SEQ}
 cleanup = cs.cleanup
-THEOREMS = ["C01_whole_command_model", "C01_whole_command_decider_sound", "C01_cyclic_history_refused", "C01_session_model_holds", "C01_session_decider_sound", "C01_session_state_preserved", "C01_session_rows_reread", "C01_plan_exact", "C01_total", "C01_model_holds", "C01_decider_sound", "C01_inclass", "C01_normalisation", "C01_upgrade_heads_applies_all"]
+THEOREMS = ["C01_whole_command_model", "C01_whole_command_decider_sound", "C01_cyclic_history_refused", "C01_session_model_holds", "C01_session_decider_sound", "C01_session_state_preserved", "C01_session_rows_reread", "C01_session_next_rows_in_domain", "C01_plan_exact", "C01_total", "C01_model_holds", "C01_decider_sound", "C01_inclass", "C01_normalisation", "C01_upgrade_heads_applies_all"]
 TRUSTED = ["target strings (ids, partial ids, head(s), label@head, rev+N) are resolved by the real "
            "_parse_upgrade_target and handed to the model as revision ids: C01 is planner-after-resolution, "
            "target resolution itself is C16",
